@@ -13,7 +13,8 @@ import (
 // Accessors for the C16 harness (vh_stressroute).  Unexported names touched:
 //   InMemCollector.{workers, tracesToSend, done, reload}, inMemCollectorMetrics,
 //   NewCollectorWorker's result: CollectorWorker.{incoming, fromPeer, cache, processSpan, Stop},
-//   StressRelief.{lock, stressed, sampleRate, upperBound}, hashSeed.
+//   StressRelief.{lock, stressed, sampleRate, upperBound}, hashSeed, InMemCollector.reloadConfigs,
+//   CollectorWorker.sampleCache.
 //
 // The collector is set up as Start() sets it up for the paths driven here (its workers with their
 // queues, trace buffer and decision record) but none of its goroutines (collect loops, sendTraces,
@@ -112,4 +113,21 @@ func (s *StressRelief) VerifStressrouteRule() (sampleRate, upperBound uint64) {
 // VerifStressrouteHash is the hash GetSampleRate compares with the upper bound.
 func VerifStressrouteHash(traceID string) uint64 {
 	return wyhash.Hash([]byte(traceID), hashSeed)
+}
+
+// VerifStressrouteReload is what monitor() does when the configuration's reload callback has
+// fired: reloadConfigs (SamplerFactory.ClearDynsamplers, StressRelief.UpdateFromConfig, worker
+// reload signals).
+func VerifStressrouteReload(i *InMemCollector) { i.reloadConfigs() }
+
+// VerifStressrouteRecord enters a decision of the normal sampler into the trace's worker's
+// decision record exactly as makeDecision does (`trace.SetSampleRate(rate)`,
+// `sampleCache.Record(trace, shouldSend, reason)`); the sampler itself is not run.
+func VerifStressrouteRecord(i *InMemCollector, traceID string, keep bool, rate uint) {
+	w := i.workers[i.getWorkerIDForTrace(traceID)]
+	now := i.Clock.Now()
+	trace := &types.Trace{TraceID: traceID, ArrivalTime: now, SendBy: now}
+	trace.SetSampleRate(rate)
+	trace.KeepSample = keep
+	w.sampleCache.Record(trace, keep, "verif/normal-sampler")
 }
